@@ -25,8 +25,8 @@ def sign(x):
     return (x > 0) - (x < 0)
 
 
-BUILTINS = {'sign': sign, 'abs': abs, 'len': len, 'min': min, 'max': max, 'int': int, 'float': float, 'bool': bool,
-            'np.sign': sign, 'numpy.sign': sign, 'isinstance': None}
+BUILTINS = {'sign': sign, 'abs': abs, 'len': len, 'min': min, 'max': max, 'int': int, 'float': float, 'bool': bool, 'str': str,
+            'np.sign': sign, 'numpy.sign': sign, 'isinstance': isinstance}
 
 CMP = {ast.Eq: lambda a, b: a == b, ast.NotEq: lambda a, b: a != b, ast.Lt: lambda a, b: a < b, ast.LtE: lambda a, b: a <= b,
        ast.Gt: lambda a, b: a > b, ast.GtE: lambda a, b: a >= b, ast.In: lambda a, b: a in b, ast.NotIn: lambda a, b: a not in b,
@@ -90,6 +90,11 @@ def ev(node, env):
             left = r
         return True
     if isinstance(node, ast.Subscript):
+        if isinstance(node.slice, ast.Slice):
+            lo = ev(node.slice.lower, env) if node.slice.lower is not None else None
+            hi = ev(node.slice.upper, env) if node.slice.upper is not None else None
+            st = ev(node.slice.step, env) if node.slice.step is not None else None
+            return ev(node.value, env)[lo:hi:st]
         return ev(node.value, env)[ev(node.slice, env)]
     if isinstance(node, ast.IfExp):
         return ev(node.body, env) if ev(node.test, env) else ev(node.orelse, env)
@@ -118,6 +123,15 @@ def run_stmts(stmts, env):
             raise Returned(ev(st.value, env) if st.value is not None else None)
         if isinstance(st, ast.If):
             run_stmts(st.body if ev(st.test, env) else st.orelse, env)
+        elif isinstance(st, ast.Assign) and len(st.targets) == 1 and isinstance(st.targets[0], ast.Name) and isinstance(st.value, ast.Call) \
+                and isinstance(st.value.func, ast.Attribute) and st.value.func.attr == '_replace' and isinstance(st.value.func.value, ast.Name):
+            # record-style update: x = x._replace(field=value) over the flattened names 'x.field'
+            src, dst = st.value.func.value.id, st.targets[0].id
+            if src != dst:
+                for k in [k for k in env if k.startswith(src + '.')]:
+                    env[dst + k[len(src):]] = env[k]
+            for kw in st.value.keywords:
+                env['{}.{}'.format(dst, kw.arg)] = ev(kw.value, env)
         elif isinstance(st, ast.Assign) and len(st.targets) == 1 and isinstance(st.targets[0], ast.Name):
             env[st.targets[0].id] = ev(st.value, env)
         elif isinstance(st, ast.Pass):
